@@ -68,3 +68,5 @@ func kitMsg(typ uint8, ts uint32, payload []byte) base.RtmpMsg {
 	}
 	return base.RtmpMsg{Header: base.RtmpHeader{Csid: csid, MsgLen: uint32(len(payload)), MsgTypeId: typ, MsgStreamId: 1, TimestampAbs: ts}, Payload: payload}
 }
+
+func kitConnNil() *vkit.Conn { return &vkit.Conn{} }
